@@ -3,6 +3,7 @@ From Cctp Require Import Lib.Bytes Lib.SMap Lib.Text Lib.Bech32 Lib.Keccak.
 From Cctp Require Import Model.Codec Model.State Model.Attest Model.Ledger Model.Handlers Model.Chain.
 From Cctp Require Import Proofs.MonadFacts Proofs.FlowFacts Proofs.DecisionFacts Proofs.KeccakFacts Proofs.CodecFacts.
 From Coq Require Import ZifyN ZifyNat ZifyBool.
+From Cctp Require Import Vectors.Examples.
 
 (* the documented preconditions; [caller] is [] for the plain variant *)
 Definition deposit_conditions (e : env) (c : chain) (plan : list directive) (from : bytes) (amount : option Z)
@@ -115,6 +116,13 @@ Proof. intros s denom a H. unfold limit_ok. now rewrite H. Qed.
 Theorem C08_body_size_boundary : forall s body, length body = 132 ->
   (max_body s = Some 132%N -> body_fits s body = true) /\ (max_body s = Some 131%N -> body_fits s body = false).
 Proof. intros s body L. unfold body_fits. rewrite L. split; intros ->; reflexivity. Qed.
+
+(* non-vacuity: the preconditions are satisfiable - a concrete deposit in a concrete chain *)
+Example C08_conditions_satisfiable :
+  deposit_conditions ex_env ex_chain [] ex_alice (Some 100%Z) 0 (repeat x07 32) (B "uusdc") [].
+Proof.
+  apply C08_deposit_iff; [|exact ex_deposit_ok]. exists ex_module. vm_compute. reflexivity.
+Qed.
 
 Print Assumptions C08_deposit_iff.
 Print Assumptions C08_deposit_with_caller_iff.
